@@ -14,7 +14,8 @@ from engine import tlc, core, tracecheck
 from harness import c14_wire as W
 
 ADAPTER = "harness.adapters_c14:Adapter"
-ACTIONS = ["Build", "Feed", "Pack", "Parse", "Edit", "Repack"]
+ACTIONS = ["Build", "Feed", "Pack", "Parse", "Edit", "Repack", "Change", "PackAgain", "RepackAgain"]
+OPTIONAL = ("Edit", "Change", "PackAgain", "RepackAgain")      # need a payload / a container: required over all corpora together
 CORPORA = {"quick": ["quick", "ext", "tail", "dns"], "thorough": ["thorough", "ext", "tail", "dns", "sweep"]}
 
 
@@ -82,8 +83,12 @@ def _check_mirror(behs):
   """harness/c14_wire.py (the Python byte builder other checks use) against TLC's EncStack"""
   for b in behs:
     stack = b[0]["args"]["pkt"]
+    built = b[0]["a"] == "Build"
     for st in b:
-      w = st["exp"] if st["a"] == "Pack" else st["args"]["wire"] if st["a"] == "Feed" else None
+      if st["a"] == "Change" and built and len(b) == 4:
+        stack = W.apply_edit(stack, st["args"])           # Build, Pack, Change, PackAgain: the edited stack
+      w = (st["exp"] if st["a"] == "Pack" or (st["a"] == "PackAgain" and built)
+           else st["args"]["wire"] if st["a"] == "Feed" else None)
       if w is None:
         continue
       pay = W.raw_bytes(stack[-1]) if stack and stack[-1]["p"] in ("raw", "rawb") else b""
@@ -96,7 +101,7 @@ def _vacuity(behs, mc, name):
   fake = tlc.TLCResult()
   fake.coverage = {a: (0, n) for a, n in cnt.items()}
   # (Edit needs an opaque payload: required over all corpora together, see _run)
-  tlc.require_coverage(fake, [a for a in ACTIONS if a != "Edit"], "PktWire %s" % name)
+  tlc.require_coverage(fake, [a for a in ACTIONS if a not in OPTIONAL], "PktWire %s" % name)
   cases = len({core.canon(b[0]["args"]["d"]) for b in behs})
   # init + built + packed + parsed + done per case (and the Feed path), all reached
   if mc.distinct < 5 * cases:
